@@ -1,10 +1,47 @@
 OPS += [
  ("merge", "{α : Type} (n : Nat)", "Merge.machine α n", "Merge.merge_basicSafe n s hs", "Merge"),
  ("flatten", "{α : Type}", "Flatten.machine α", "Flatten.flatten_basicSafe s hs", "Flatten"),
+ # pipe!(source, op₁, op₂) of two relays as ONE machine (Ops/Compose.lean), via the fusion refinement (Inv/Fuse.lean)
+ ("pipe_of_two_relays", "{σ₁ σ₂ α β γ : Type} (k₁ : Relay.Kind σ₁ α β) (k₂ : Relay.Kind σ₂ β γ)\n    (h₁ : k₁.slotted = false → ∀ s a, (k₁.xfer s a).2 ≠ none) (h₂ : k₂.slotted = false → ∀ s b, (k₂.xfer s b).2 ≠ none)",
+  "compose (Relay.machine k₁) (Relay.machine k₂)", "Fuse.compose_relay_basicSafe k₁ k₂ h₁ h₂ s hs", "Fuse"),
 ]
+READABLE = {
+ "01": ("GreetFirstOnce", "greetFirstOnce_of_clean hs (fun v hv => h.1 v (by unfold G.viols; exact List.mem_append_right _ hv)) k",
+        "(h : SafeFor 1 s)",
+        "a sink is greeted at most once and every delivery to it comes after its greeting (positions in the chronological trace)"),
+ "02": ("TerminalFinal", "terminalFinal_of_clean hs (fun v hv => ⟨h1.1 v (by unfold G.viols; exact List.mem_append_right _ hv), h2.1 v (by unfold G.viols; exact List.mem_append_right _ hv), h3.1 v (by unfold G.viols; exact List.mem_append_right _ hv)⟩) k",
+        "(h1 : SafeFor 1 s) (h2 : SafeFor 2 s) (h3 : SafeFor 3 s)",
+        "after a terminal message to a sink nothing else is delivered to it. All three of C01, C02, C03 are needed: the monitor files a delivery under the property of the phase the sink is in (`Rd.terminalFinal_needs_C01`, `Rd.terminalFinal_needs_C03` are kernel-checked counterexamples with only one of them missing)"),
+ "03": ("DisposalRespected", "disposalRespected_of_clean hs (fun v hv => h.1 v (by unfold G.viols; exact List.mem_append_right _ hv)) k",
+        "(h : SafeFor 3 s)",
+        "once a sink has sent Terminate or Error on its talkback no further delivery to it begins"),
+}
+def readable_theorems(n):
+    if n not in READABLE: return ""
+    pred, prf, hyps, doc = READABLE[n]
+    out = f"""
+/-! ## What the monitor verdict means, in terms of the trace alone
+
+`SafeFor {int(n)}` is a statement about the ghost monitor. The theorem below reads it back as a statement about positions in the
+boundary trace `s.tr` (newest first; `chronAt tr p` is the `p`-th event in chronological order) that does not mention the
+monitor — for EVERY machine, so that the monitor itself is not part of what has to be believed. -/
+
+/-- C{n}, readable form: {doc}. -/
+theorem C{n}_readable {{St Loc α β : Type}} (M : Machine St Loc α β) (s : Sys St Loc α β) (hs : SReach M s)
+    {hyps} (k : Nat) : {pred} k s.tr :=
+  {prf}
+"""
+    for (suf, binders, mach, prf2, _) in OPS:
+        out += f"""
+theorem C{n}_{suf}_readable {binders} :
+    ∀ s, SReach ({mach}) s → ∀ k, {pred} k s.tr :=
+  fun s hs k => (readable_of_noViols hs ({prf2}).1 k).{ {"01":"1","02":"2.1","03":"2.2"}[n] }
+"""
+    return out
+
 def extra_theorems(n):
     p = int(n)
-    full = ""
+    full = readable_theorems(n)
     if n in ("01", "17"):
         full = f"""
 /-- `share`, EVERY conformant environment (nested fan-out included): the only phase-level violations share can commit are deliveries
@@ -26,4 +63,4 @@ theorem C{n}_share_partial {{α : Type}} :
     ∀ s, SReachR (Share.machine α) noNestedFanout s → SafeFor {p} s :=
   fun s hs => safeFor_of_basicSafe _ s hs.weaken (Share.share_basicSafe_partial s hs) {p} (by decide)
 """
-OPS_IMPORT_EXTRA = ["Combine", "Share", "ShareWeak"]
+OPS_IMPORT_EXTRA = ["Combine", "Share", "ShareWeak", "Readable"]
